@@ -219,33 +219,100 @@ def classify(task, ob):
 
 def replay(task, ob, model):
     a = task["args"]
+    pattern = a.get("pattern")
+    fv = {}
+    if a.get("state") == "fitted" and pattern:
+        def num(v):
+            return float(v.get("float", 0)) if isinstance(v, dict) else float(v)
+        from harness.c17 import ALL as FEATS
+        for nm in FEATS:
+            v = num(model.get("v_" + nm, 1 if nm.startswith("feat_bin_") else 0.5))
+            if (pattern == "bin-nan" and nm == "feat_bin_cp_position") or (pattern == "con-nan" and nm == "feat_con_apr_sum") \
+                    or pattern == "nan:" + nm:
+                v = float("nan")
+            fv[nm] = v
+        pred = num(model.get("regressor_prediction", 3.5))
+        return common.REPLAY_HEAD + f'''
+import nanite, math
+import nanite.indent as nind
+from nanite.rate import rater as rmod, features as fmod
+nan = float("nan")
+fv = {fv!r}; pred = {pred!r}
+for nm, v in fv.items():
+    setattr(fmod.IndentationFeatures, nm, (lambda val: (lambda self: val))(v))
+rmod.IndentationRater._rate = lambda self, sample: pred
+n = 700
+x = np.linspace(2e-6, -1e-6, n); f = np.concatenate([np.zeros(400), np.linspace(0, 1, 300) ** 1.5 * 5e-9])
+idnt = nanite.Indentation(data={{{{"height (measured)": x, "force": f, "time": np.arange(n * 1.) / n, "segment": np.zeros(n, dtype=np.uint8)}}}},
+                          metadata={{{{"path": "/sym/c.jpk-force", "enum": 0, "point count": n, "imaging mode": "force-distance", "spring constant": 0.1}}}})
+idnt.apply_preprocessing(["compute_tip_position", "correct_force_offset", "correct_tip_offset"]); idnt.fit_model(model_key="hertz_para")
+bad = []
+try:
+    r = idnt.rate_quality()
+    bins = [v for k, v in fv.items() if k.startswith("feat_bin_")]; cons = [v for k, v in fv.items() if k.startswith("feat_con_")]
+    if any(b == 0 for b in bins): want = 0
+    elif any(math.isnan(c) for c in cons): want = -1
+    else: want = pred
+    print("rating", r, "expected", want)
+    if r != want: bad.append("rating %r, expected %r" % (r, want))
+    r2 = nind.get_rater(regressor="Extra Trees", training_set="zef18").rate(datasets=idnt)[0]
+    if r2 != r: bad.append("standalone rater gives %r" % (r2,))
+except Exception as e:
+    bad.append("rate_quality raised %r" % (e,))
+print({ob["name"]!r}, bad)
+if bad:
+    print("REPRODUCED"); sys.exit(1)
+sys.exit(0)
+'''.replace("{{{{", "{{").replace("}}}}", "}}")
     return common.REPLAY_HEAD + f'''
 import nanite, copy
 import nanite.indent as nind
 from nanite.rate import rater as rmod
 state = {a.get("state")!r}; change = {a.get("change")!r}
-x = np.linspace(2e-6, -1e-6, 700); f = np.concatenate([np.zeros(400) + 1e-12 * np.cos(np.arange(400)), np.linspace(0, 1, 300) ** 1.5 * 5e-9])
-def curve():
-    return nanite.Indentation(data={{"height (measured)": x.copy(), "force": f.copy(), "time": np.arange(700.) / 700,
-                                    "segment": np.zeros(700, dtype=np.uint8)}},
-                              metadata={{"path": "/sym/c.jpk-force", "enum": 0, "point count": 700,
+def curve(n=700):
+    nb = n * 4 // 7
+    x = np.linspace(2e-6, -1e-6, n); f = np.concatenate([np.zeros(nb) + 1e-12 * np.cos(np.arange(nb)), np.linspace(0, 1, n - nb) ** 1.5 * 5e-9])
+    return nanite.Indentation(data={{"height (measured)": x.copy(), "force": f.copy(), "time": np.arange(n * 1.) / n,
+                                    "segment": np.zeros(n, dtype=np.uint8)}},
+                              metadata={{"path": "/sym/c.jpk-force", "enum": 0, "point count": n,
                                         "imaging mode": "force-distance", "spring constant": 0.1}})
 pre = ["compute_tip_position", "correct_force_offset", "correct_tip_offset"]
-idnt = curve()
-if state == "preprocessed-only":
-    idnt.apply_preprocessing(pre)
-elif state == "settings-only":
-    idnt.apply_preprocessing(pre); idnt.fit_model(model_key="hertz_para"); idnt.fit_properties["weight_cp"] = 3e-7
-elif state == "unsuccessful-fit":
-    idnt.apply_preprocessing(pre); idnt.fit_model(model_key="hertz_para", range_x=[5e-6, 6e-6])
-elif state in ("fitted", "fitted-no-contact-point") or change:
-    idnt.apply_preprocessing(pre); idnt.fit_model(model_key="hertz_para")
+def prepare(n):
+    idnt = curve(n)
+    if state == "preprocessed-only":
+        idnt.apply_preprocessing(pre)
+    elif state == "settings-only":
+        idnt.apply_preprocessing(pre); idnt.fit_model(model_key="hertz_para"); idnt.fit_properties["weight_cp"] = 3e-7
+    elif state in ("unsuccessful-fit", "unsuccessful-fit-stale-parameters"):
+        idnt.apply_preprocessing(pre)
+        if state.endswith("stale-parameters"): idnt.fit_model(model_key="hertz_para")
+        idnt.fit_model(model_key="hertz_para", range_x=[5e-6, 6e-6])
+    elif state == "fitted-no-contact-point":
+        idnt.apply_preprocessing(pre); idnt.fit_model(model_key="hertz_para")
+        dict.__delitem__(idnt.fit_properties["params_fitted"], "contact_point")
+    elif state == "fitted" or change:
+        idnt.apply_preprocessing(pre); idnt.fit_model(model_key="hertz_para")
+    return idnt
+bad = []
+if state not in ("fitted", None):
+    # a curve too short for the size criterion (fewer than 600 approach points):
+    # rated 0 once a fit was attempted, -1 before
+    short = prepare(70)
+    try:
+        r = short.rate_quality()
+        want = 0 if "success" in short.fit_properties else -1
+        print("short curve, state", state, "rating", r, "expected", want)
+        if r != want: bad.append("short curve: rating %r, expected %r" % (r, want))
+        if rmod.IndentationRater.__mro__ and nind.get_rater(regressor="Extra Trees", training_set="zef18").rate(datasets=short)[0] != r:
+            bad.append("short curve: standalone rater differs")
+    except Exception as e:
+        bad.append("short curve: rate_quality raised %r" % (e,))
+idnt = prepare(700)
 made = []
 _get = nind.get_rater
 def counting(**kw):
     made.append(kw); return _get(**kw)
 nind.get_rater = counting
-bad = []
 try:
     r = idnt.rate_quality()
     print("state", state, "rating", r)
